@@ -133,6 +133,10 @@ def run_impl(mode, impl, us, times, dt, lineage=None):
     raise ValueError(mode)
 
 
+class ModelChanged(Exception):
+    pass
+
+
 def run_lineage(sp, us, times, dt):
     from bioscrape.lineage import LineageModel, LineageCSimInterface, LineageSSASimulator, LineageVolumeCellState
     m = to_model(sp, cls=LineageModel)
@@ -141,9 +145,16 @@ def run_lineage(sp, us, times, dt):
     iface.py_set_initial_time(times[0])
     order = m.get_species_list()
     perm = [order.index(s) for s in sp['species']]
-    v = LineageVolumeCellState(v0=1.0, t0=0.0, state=np.array(m.get_species_array(), dtype=float))
+    before = np.array(m.get_species_array(), dtype=float)
+    if len(us) % 2:
+        v = LineageVolumeCellState(v0=1.0, t0=0.0, state=before.copy())
+    else:
+        v = LineageVolumeCellState(v0=1.0, t0=0.0)      # no state given: the cell starts from the Model's initial condition
     with Stream(us) as st:
         res = LineageSSASimulator().py_SimulateSingleCell(np.array(times, dtype=float), Model=m, interface=iface, v=v)
+    after = np.array(m.get_species_array(), dtype=float)
+    if not np.array_equal(before, after):
+        raise ModelChanged('a single-cell run changed the Model\'s initial condition from %s to %s' % (before.tolist(), after.tolist()))
     arr = res.py_get_result()
     return dict(rows=[[float(r[k]) for k in perm] for r in arr], consumed=st.consumed, overrun=st.overrun,
                 times=[float(t) for t in res.py_get_timepoints()], dead=res.py_get_dead(), divided=res.py_get_divided())
@@ -199,7 +210,11 @@ def run_config(c, cfg):
         # no reference for the lineage loop here (C19 has it): mapping-independent oracles on raw lattice scripts
         depth = cfg['depth']
         for script in itertools.product(LATTICE, repeat=depth):
-            got = run_lineage(sp, list(script), times, dt)
+            try:
+                got = run_lineage(sp, list(script), times, dt)
+            except ModelChanged as e:
+                c.violation(pre + 'model-changed', str(e), case(list(script), None))
+                break
             c.count('evaluations'); c.count('traces'); c.count('transitions', depth)
             rows = got['rows']
             if got['dead'] >= 0 or len(rows) != len(times):
@@ -218,7 +233,11 @@ def run_config(c, cfg):
         cell0 = dict(state={s_: float(sp['x0'][s_]) for s_ in sp['species']}, V=1.0, V0=1.0, t=0.0, t0=0.0)
 
         def on_lin(choices, menus, ref):
-            got = run_lineage(sp, ref['us'], times, dt)
+            try:
+                got = run_lineage(sp, ref['us'], times, dt)
+            except ModelChanged as e:
+                c.violation(pre + 'model-changed', str(e), case(ref['us'], None))
+                return
             c.count('evaluations'); c.count('traces'); c.count('transitions', len(choices))
             cs = case(ref['us'], got['rows'], dict(ref_rows=ref['rows'], letters=[m_.letters[ch].name for m_, ch in zip(menus, choices)]))
             if got['consumed'] != len(ref['us']) or got['overrun']:
